@@ -350,6 +350,8 @@ func (r *Run) SleepUntil(max time.Duration, cond func() bool) bool {
 		}
 		timer := time.NewTimer(rem)
 		before := time.Now()
+		// whatever happens when a timer fires during the sleep belongs to a new step
+		r.NextStep()
 		select {
 		case <-timer.C:
 		case <-r.Sched.Poke():
@@ -357,7 +359,6 @@ func (r *Run) SleepUntil(max time.Duration, cond func() bool) bool {
 		}
 		if adv := time.Since(before); adv > 0 {
 			r.Stats.SimNanos += int64(adv)
-			r.NextStep()
 		}
 	}
 }
